@@ -19,9 +19,9 @@ EXTENDS RedisCmds, ValueReg, Json
 
 CONSTANTS Keys, MaxCmds, CmdSet, Export
 
-VARIABLES kv, reg, hist
-vars == <<kv, reg, hist>>
-view == <<kv, reg, Len(hist)>>
+VARIABLES kv, reg, hist, now
+vars == <<kv, reg, hist, now>>
+view == <<kv, reg, Len(hist), now>>
 
 A == 97  B == 98
 Vals == {<<A>>, <<B, A>>}
@@ -35,13 +35,15 @@ FromLE8(b) == IF b[8] >= 128 THEN 0 - (1 + (255 - b[1]) + 256 * (255 - b[2]) + 6
 
 KeyBytes(k) == IF k = "k1" THEN <<107, 49>> ELSE <<107, 50>>
 PropHd(k) == LE16(3 + Len(KeyBytes(k))) \o <<1>> \o LE16(Len(KeyBytes(k))) \o KeyBytes(k)
-OpOf(c) == CASE c.c \in {"SET", "GETSET", "SETNX"} -> [t |-> T_SET, st |-> 0, fl |-> FL_PROPS, hd |-> PropHd(c.k), pl |-> c.v]
+SetLike == {"SET", "GETSET", "SETNX", "SET_EX", "SET_PX", "SETEX", "PSETEX", "SET_NX", "SET_XX", "SET_NX_TX", "SET_NX_PTX"}
+OpOf(c) == CASE c.c \in SetLike -> [t |-> T_SET, st |-> 0, fl |-> FL_PROPS, hd |-> PropHd(c.k), pl |-> c.v]
              [] c.c = "APPEND" -> [t |-> T_APPEND, st |-> 0, fl |-> FL_PROPS, hd |-> PropHd(c.k), pl |-> c.v]
              [] c.c \in {"INCR", "DECR", "INCRBY", "DECRBY"} -> [t |-> T_INCR, st |-> 0, fl |-> FL_NUMBER + FL_PROPS, hd |-> PropHd(c.k), pl |-> ToLE8(Delta(c))]
 
 RegStep(r, c) ==
-    CASE c.c \in {"SET", "GETSET", "APPEND", "INCR", "DECR", "INCRBY", "DECRBY"} -> Apply(r, OpOf(c), TRUE)
-      [] c.c = "SETNX" -> IF r = None THEN Apply(r, OpOf(c), TRUE) ELSE r
+    CASE c.c \in {"SET", "GETSET", "APPEND", "INCR", "DECR", "INCRBY", "DECRBY", "SET_EX", "SET_PX", "SETEX", "PSETEX"} -> Apply(r, OpOf(c), TRUE)
+      [] c.c \in {"SETNX", "SET_NX", "SET_NX_TX", "SET_NX_PTX"} -> IF r = None THEN Apply(r, OpOf(c), TRUE) ELSE r
+      [] c.c = "SET_XX" -> IF r # None THEN Apply(r, OpOf(c), TRUE) ELSE r
       [] c.c = "DEL" -> None
       [] OTHER -> r
 
@@ -52,6 +54,9 @@ RegView(r) == IF r = None THEN [p |-> FALSE]
 KvView(v) == IF ~v.p THEN [p |-> FALSE] ELSE [p |-> TRUE, k |-> v.k, s |-> v.s, n |-> v.n]
 
 Cmd(c, k, v, d) == [c |-> c, k |-> k, v |-> v, d |-> d]
+\* option values around every unit boundary of the converter (protocol/textcommand.go): seconds and milliseconds
+SecVals == {1, 60, 65535, 65536, 100000}
+MsVals  == {1, 999, 1000, 2999, 3000, 3001, 5000, 59999, 60000, 65535, 65536, 70000, 65535000, 65535001, 65580500, 120000000}
 Cmds ==
     LET rw == {Cmd("SET", k, v, 0) : k \in Keys, v \in Vals} \cup {Cmd("GET", k, <<>>, 0) : k \in Keys} \cup {Cmd("DEL", k, <<>>, 0) : k \in Keys}
         nx == {Cmd("SETNX", k, v, 0) : k \in Keys, v \in {<<B, A>>}} \cup {Cmd("GETSET", k, v, 0) : k \in Keys, v \in {<<A>>}}
@@ -60,31 +65,63 @@ Cmds ==
         ap == {Cmd("APPEND", k, v, 0) : k \in Keys, v \in {<<B, A>>}}
         rd == {Cmd("EXISTS", k, <<>>, 0) : k \in Keys} \cup {Cmd("STRLEN", k, <<>>, 0) : k \in Keys}
         ex == {Cmd("EXPIRE", k, <<>>, 3) : k \in Keys} \cup {Cmd("PERSIST", k, <<>>, 0) : k \in Keys} \cup {Cmd("PERSIST3", k, <<>>, 0) : k \in Keys}
-              \cup {Cmd("TICK", "k1", <<>>, 6)}
+              \cup {Cmd("TICK", "k1", <<>>, 8)}
+        \* time-to-live alphabet, one key
+        K == "k1"
+        mk == {Cmd("SET", K, <<A>>, 0), Cmd("SET_NX", K, <<B>>, 0), Cmd("SET_XX", K, <<B, A>>, 0)}
+              \cup {Cmd(c, K, <<A>>, d) : c \in {"SET_EX", "SETEX"}, d \in SecVals}
+              \cup {Cmd(c, K, <<A>>, d) : c \in {"SET_PX", "PSETEX"}, d \in MsVals}
+        up == {Cmd(c, K, <<>>, d) : c \in {"EXPIRE", "EXPIREAT"}, d \in SecVals}
+              \cup {Cmd("PEXPIRE", K, <<>>, d) : d \in MsVals}
+              \* absolute times are converted against the wall clock: a value just above a unit boundary may be read as
+              \* one just below it, so those two are replaced by values a second and a half clear of the boundary
+              \cup {Cmd("PEXPIREAT", K, <<>>, d) : d \in (MsVals \ {3001, 65535001}) \cup {4500, 65536500}}
+              \cup {Cmd("PERSIST", K, <<>>, 0), Cmd("APPEND", K, <<B>>, 0), Cmd("GETSET", K, <<B>>, 0)}
+        ob == {Cmd("GET", K, <<>>, 0), Cmd("EXISTS", K, <<>>, 0), Cmd("STRLEN", K, <<>>, 0), Cmd("DEL", K, <<>>, 0)}
+              \cup {Cmd("TICK", K, <<>>, d) : d \in {2, 10, 75}}
     IN CASE CmdSet = "rw" -> rw \cup ap \cup ar
          [] CmdSet = "all" -> rw \cup nx \cup ar \cup ap \cup rd \cup ex
+         [] CmdSet = "ttl" -> mk \cup up \cup ob
+
+\* the time-to-live alphabet is about conversions: its update commands are issued on a key that exists and was not
+\* made by a NX command (those two situations are the recorded findings V5 / V6, reached by the "all" alphabet)
+TtlGuard(c) == CmdSet = "ttl" /\ c.c \in {"EXPIRE", "EXPIREAT", "PEXPIRE", "PEXPIREAT", "PERSIST", "APPEND", "GETSET", "SET", "SET_XX", "SET_EX", "SET_PX", "SETEX", "PSETEX"}
+                  => (c.c \in {"SET", "SET_XX", "SET_EX", "SET_PX", "SETEX", "PSETEX"} /\ ~kv[c.k].p) \/ (kv[c.k].p /\ ~kv[c.k].nx)
 
 Init == /\ kv = [k \in Keys |-> Absent]
         /\ reg = [k \in Keys |-> None]
         /\ hist = <<>>
+        /\ now = 0
 
-Do(c) == LET r == Exec(kv, c) IN
+Do(c) == LET r == Exec(kv, c, now) IN
          /\ ~r.open                                    \* commands without a single plain-store answer are not generated
+         /\ TtlGuard(c)
          /\ kv' = r.kv
-         /\ reg' = IF c.c = "TICK" THEN [k \in Keys |-> IF kv[k].p /\ kv[k].ttl THEN None ELSE reg[k]]
+         /\ reg' = IF c.c = "TICK" THEN [k \in Keys |-> IF kv[k].p /\ ~r.kv[k].p THEN None ELSE reg[k]]
                    ELSE [reg EXCEPT ![c.k] = RegStep(@, c)]
+         /\ now' = IF c.c = "TICK" THEN now + c.d * 1000 ELSE now
          /\ hist' = Append(hist, c)
 
 Next == Len(hist) < MaxCmds /\ \E c \in Cmds : (hist = <<>> => c.k = "k1") /\ Do(c)
 Spec == Init /\ [][Next]_vars
 
 Consequently == \A k \in Keys : RegView(reg[k]) = KvView(kv[k])
-TypeOK == \A k \in Keys : kv[k].p => (kv[k].k \in {"s", "n"} /\ kv[k].ttl \in BOOLEAN)
+TypeOK == \A k \in Keys : kv[k].p => (kv[k].k \in {"s", "n"} /\ kv[k].ttl.on \in BOOLEAN /\ (kv[k].ttl.on => kv[k].ttl.lo <= kv[k].ttl.hi))
 \* a few laws of a plain store, as action properties
 Laws == [][ \A c \in Cmds : (hist' = Append(hist, c)) =>
-              /\ (c.c = "SET" => Exec(kv', Cmd("GET", c.k, <<>>, 0)).replies = {RBulk(c.v)})
-              /\ (c.c = "DEL" => Exec(kv', Cmd("EXISTS", c.k, <<>>, 0)).replies = {RInt(0)})
+              /\ (c.c = "SET" => Exec(kv', Cmd("GET", c.k, <<>>, 0), now').replies = {RBulk(c.v)})
+              /\ (c.c = "DEL" => Exec(kv', Cmd("EXISTS", c.k, <<>>, 0), now').replies = {RInt(0)})
               /\ (c.c \in {"GET", "EXISTS", "STRLEN"} => kv' = kv) ]_vars
+
+\* time-to-live laws of the store: an asked term is never shortened and never leaves its unit by more than one
+\* granule; PERSIST / plain SET remove it; APPEND keeps it
+TtlLaws == [][ \A c \in Cmds : (hist' = Append(hist, c) /\ kv'[c.k].p) =>
+                 /\ (c.c \in {"SET_EX", "SETEX", "EXPIRE"} => kv'[c.k].ttl.lo = now + c.d * 1000 /\ kv'[c.k].ttl.hi - kv'[c.k].ttl.lo \in {1000, 60000})
+                 /\ (c.c \in {"SET_PX", "PSETEX", "PEXPIRE"} => kv'[c.k].ttl.lo = now + c.d /\ kv'[c.k].ttl.hi - kv'[c.k].ttl.lo \in {1000, 60000})
+                 /\ (c.c \in {"SET", "GETSET", "PERSIST"} => ~kv'[c.k].ttl.on)
+                 /\ (c.c = "APPEND" /\ kv[c.k].p => kv'[c.k].ttl = kv[c.k].ttl) ]_vars
+\* a key is never readable after its deadline has surely passed
+NoStaleKey == \A k \in Keys : kv[k].p => ~SureGone(kv[k].ttl, now)
 
 ExportInv == (Export /\ Len(hist) = MaxCmds) => PrintT("BEHAVIOUR " \o ToJson(hist))
 =============================================================================
